@@ -419,7 +419,7 @@ META.update({
             "level_text": "Held on the executions observed: hundreds to thousands of encodes x every packet: headers accepted by decoder and strict parser and equal to the encoder's info; "
                           "every audio packet valid, consumed to within its last byte (unmanaged), never out of bits without a hard maximum (managed), window flags consistent; " + _SAN,
             "level_note": "Trusted: harness/spec.c strict parser and packet parser."},
-    "C02": {"technique": "runtime monitor: sanitizers + return-code domain + budgets over mutated/boundary-value headers and random call histories of the packet API",
+    "C02": {"technique": "runtime monitor: sanitizers + return-code domain + budgets over mutated/boundary-value headers and random call histories of the packet API; lattice-size law swept over all near-perfect-power sizes",
             "level_text": "Held on the executions observed: ~10^5-10^6 library calls per run over mutated encoder-made and model-made streams and field-boundary set-ups, in random call orders "
                           "with interleaved and repeated clears; every return in the documented set; " + _SAN,
             "level_note": "Trusted: harness typestate (DESIGN 2.3). A clean sanitizer run is not memory safety; intra-object overruns are covered only by -fsanitize=bounds."},
@@ -427,7 +427,7 @@ META.update({
             "level_text": "Held on the executions observed (per-packet granule positions): every packet from k+2 on is bit-identical; with per-page granule positions two genuine, documented "
                           "limitations of granule-based trimming are reported as known findings; " + _SAN,
             "level_note": "Trusted: harness. See known_findings.json for the two per-page-granule findings."},
-    "C13": {"technique": "runtime monitor: allocator live-byte ledger around each scenario + LeakSanitizer + ASan double-free detection + close-callback counting",
+    "C13": {"technique": "runtime monitor: allocator live-byte ledger around each scenario + LeakSanitizer + ASan double-free detection + close-callback counting, incl. callback faults enumerated by invocation index",
             "level_text": "Held on the executions observed: thousands of encoder / decoder / vorbisfile scenarios including refused set-ups, refused headers, failed opens and failed seeks, "
                           "each ending in doubled clear calls: live heap bytes return to baseline, nothing is freed twice, close runs exactly once and only in ov_clear of an opened handle; " + _SAN,
             "level_note": "Trusted: ASan runtime's allocation statistics; harness frees its own memory before measuring."},
@@ -437,7 +437,7 @@ META.update({
             "level_text": "Held on the executions observed: ~10^5 (thorough 10^6+) public calls on thousands of damaged/intact/model-made streams in three open modes; every return documented, "
                           "failed opens leave a zeroed handle and an unclosed source, no call exceeds its CPU budget; " + _SAN,
             "level_note": "Trusted: libogg, harness damage operators. A clean sanitizer run is not memory safety."},
-    "C12": {"technique": "runtime monitor: exhaustive-by-index callback fault injection with error-surfacing, no-hidden-close and recovery-vs-reference oracles, under ASan+UBSan",
+    "C12": {"technique": "runtime monitor: exhaustive-by-index callback fault injection with error-surfacing, no-hidden-close and recovery oracles (every seek flavour against a never-faulted twin handle, audio against the linear reference), under ASan+UBSan+LSan",
             "level_text": "Held on the executions observed: every callback invocation index of 17 scenarios x 4 stream kinds x 5 fault kinds x one-shot/persistent (tens of thousands of faulted "
                           "runs per quick run): failures surface as error codes or EOF, nothing is closed behind the caller, nothing hangs, and after the fault clears seeks and reads equal a "
                           "never-faulted decode; " + _SAN,
